@@ -296,6 +296,24 @@ pub fn run(tier: Tier) -> i32 {
             }
         }
     }
+    // many occurrences in non-grouped order (two passes, forward and reverse, strided
+    // permutations, pairs): every variable occurs twice or three times
+    for &n in if tier.thorough() { &[17usize, 20, 33, 40, 64, 70, 100][..] } else { &[17usize, 33, 40, 70][..] } {
+        let name = |i: usize| format!("v{i:03}");
+        let fwd: Vec<usize> = (0..n).collect();
+        let rev: Vec<usize> = (0..n).rev().collect();
+        let stride = |k: usize| -> Vec<usize> { (0..n).map(|i| (i * k + 3) % n).collect() };
+        let strides: Vec<usize> = [7usize, 11, 13].into_iter().filter(|k| n % k != 0).collect();
+        let mut orders: Vec<Vec<usize>> = vec![[fwd.clone(), fwd.clone()].concat(), [fwd.clone(), rev.clone()].concat(), [rev.clone(), fwd.clone()].concat(), fwd.iter().flat_map(|i| [*i, *i]).collect()];
+        for k in &strides {
+            orders.push([stride(*k), fwd.clone()].concat());
+            orders.push([fwd.clone(), stride(*k), rev.clone()].concat());
+        }
+        for o in orders {
+            big.push(o.iter().map(|i| name(*i)).collect::<Vec<_>>().join("+"));
+            big.push(o.iter().enumerate().map(|(j, i)| format!("{}{}", if j == 0 { "" } else if j % 3 == 0 { "*" } else { "-" }, name(*i))).collect::<String>());
+        }
+    }
     let accs = par_ranges(
         big.len() as u64,
         1,
